@@ -413,6 +413,23 @@ def run(ctx):
                         some = ts.get('1', els)
                         if must_pass(b, (0, 0), [site], through=(), avoid_edges={(blk, some)}):
                             g = True
+            if not g:
+                # `let value = CharacterData::parse(..).ok_or(InvalidAttributeValue)?;`: the store needs the Continue edge of the `?`
+                for cp in calls(b, r'CharacterData>?::parse$'):
+                    tl_ = forward_taint(b, {b.blocks[cp[0]]['term']['dst']['l']}, through_refs=False)
+                    grew_ = True
+                    while grew_:
+                        grew_ = False
+                        for q_, t_ in b.iter_calls():
+                            if call_matches(t_, r'Option::<T>::(ok_or|ok_or_else)$|Result::<T, E>::(map_err|or|or_else)$|Try>::branch$') and t_['args'] and is_local_op(t_['args'][0]) and t_['args'][0]['l'] in tl_ and t_['dst']['l'] not in tl_:
+                                tl_ |= forward_taint(b, {t_['dst']['l']}, through_refs=False); grew_ = True
+                    for q_, s_ in b.iter_stmts():
+                        if s_['k'] == 'assign' and s_['rv']['k'] == 'discr' and s_['rv']['pl']['l'] in tl_ and 'ControlFlow' in (b.local_ty(s_['rv']['pl']['l']) or ''):
+                            sw_ = b.blocks[q_[0]]['term']
+                            if sw_['k'] == 'switch':
+                                cont = dict(sw_['ts']).get('0')
+                                if cont is not None and must_pass(b, (0, 0), [site], through=(), avoid_edges={(q_[0], cont)}):
+                                    g = True
             C.check(g, 'C07-MUST-value', '%s|attribute-store#%d|validated' % (fn, i), '%s stores an attribute value that did not pass check_value / parse against the attribute\'s specification' % fn, b.where(site))
         C.check(len(sites) == 2, 'C07-MUST-value', fn + '|attribute-stores', '%s has %d attribute stores (expected update + push)' % (fn, len(sites)))
     # ---------------- SIB-attrversion ----------------
